@@ -810,6 +810,47 @@ func (e *Engine) dischargeOne(o *Obligation, opts RunOpts) {
 	if len(fs) > 0 {
 		excuse = not(or(ks...))
 	}
+	r, q := e.decide(o, excuse, opts.TimeoutS, opts.Seed)
+	if r.Status != "unsat" && r.Status != "sat" && !o.Try {
+		// No solver answered within the limit.  A loaded machine must not turn a proof that normally
+		// takes a few seconds into an alarm: one more attempt with four times the limit and another
+		// seed.  Only more proof effort is spent; the obligation and its query are unchanged.
+		r2, q2 := e.decide(o, excuse, opts.TimeoutS*4, opts.Seed+1)
+		r2.Ms += r.Ms
+		r, q = r2, q2
+		o.Retried = true
+	}
+	if r.Status != "unsat" && !o.Try {
+		// get a model for the report
+		if r.Status == "sat" {
+			rm := RunSMT(q, opts.TimeoutS, opts.Seed, true, []string{r.Solver})
+			if rm.Status == "sat" {
+				r = rm
+			}
+		}
+	}
+	o.Result = r
+	switch {
+	case r.Status == "unsat":
+		o.Status = "discharged"
+	case o.Try:
+		o.Status = "undecided"
+	default:
+		o.Status = "failed"
+	}
+	// is each known finding still present?
+	for i, f := range fs {
+		_ = f
+		qf := o.BuildQuery(ks[i], true)
+		rf := RunSMT(qf, opts.TimeoutS, opts.Seed, false, nil)
+		o.FindingPresent = append(o.FindingPresent, rf.Status != "unsat")
+	}
+}
+
+// decide runs the solver race on one obligation (all cases of a case split) with the given limit and
+// returns the verdict together with the query it belongs to.
+func (e *Engine) decide(o *Obligation, excuse string, timeoutS int, seed int) (SolverResult, string) {
+	opts := RunOpts{TimeoutS: timeoutS, Seed: seed}
 	q := o.BuildQuery(excuse, true)
 	o.Query = q
 	var r SolverResult
@@ -838,29 +879,5 @@ func (e *Engine) dischargeOne(o *Obligation, opts RunOpts) {
 	} else {
 		r = RunSMT(q, opts.TimeoutS, opts.Seed, false, nil)
 	}
-	if r.Status != "unsat" && !o.Try {
-		// get a model for the report
-		if r.Status == "sat" {
-			rm := RunSMT(q, opts.TimeoutS, opts.Seed, true, []string{r.Solver})
-			if rm.Status == "sat" {
-				r = rm
-			}
-		}
-	}
-	o.Result = r
-	switch {
-	case r.Status == "unsat":
-		o.Status = "discharged"
-	case o.Try:
-		o.Status = "undecided"
-	default:
-		o.Status = "failed"
-	}
-	// is each known finding still present?
-	for i, f := range fs {
-		_ = f
-		qf := o.BuildQuery(ks[i], true)
-		rf := RunSMT(qf, opts.TimeoutS, opts.Seed, false, nil)
-		o.FindingPresent = append(o.FindingPresent, rf.Status != "unsat")
-	}
+	return r, q
 }
